@@ -371,3 +371,27 @@ func vh_batch_value_count() {
 	}
 	vObserve("n", sentBatch)
 }
+
+// "a wrong number of bound values is reported as an error rather than sent" - also on the way the
+// token-aware policy takes BEFORE the count check of executeQuery: Pick -> Query.GetRoutingKey ->
+// createRoutingKey indexes the bound values with the partition key positions of the statement.
+func vh_routing_key_value_count() {
+	int4 := NativeType{proto: 4, typ: TypeInt}
+	info := &routingKeyInfo{indexes: []int{1}, types: []TypeInfo{int4}}
+	need := 2
+	if vBool("composite_key") {
+		info = &routingKeyInfo{indexes: []int{0, 2}, types: []TypeInfo{int4, int4}}
+		need = 3
+	}
+	n := vChoose("bound_values", 4)
+	values := make([]interface{}, n)
+	for i := range values {
+		values[i] = int32(7)
+	}
+	key, err := createRoutingKey(info, values)
+	vAssert((err == nil) == (n >= need), "C14/values/routing-key-of-too-few-values-is-an-error")
+	if err != nil {
+		vAssert(key == nil, "C14/values/routing-key-of-too-few-values-is-an-error")
+	}
+	vObserve("ok", err == nil)
+}
